@@ -404,6 +404,54 @@ def modelLine (ws : List String) : String :=
     projections sys (runSched sys (initSt q 1, twoStopsThreads) (if q = 0 then twoStopsSchedU else twoStopsSched)) 1 2
   | _ => "unknown-witness"
 
+/-! ### Writer conformance: the model's writer goroutine, driven by what the real one was observed to do
+
+`wconf b=<batch size> <writer events>`: the events of the real writer goroutine (`rs.o`, `w.o.v`, `cm`, `d.o`, in
+their order) of one run.  The acceptor runs the model's own `stepWriter`: before each observed event the
+environment is made as permissive as it can be (the object of an observed `rs.o` is put into the queue, its
+version set to the observed value, a flush request pending, `running` set), then the model's writer must be able
+to reach — through steps that emit nothing — a step that emits exactly the observed event.  So the order reset →
+decrement → BatchWrite, "commit exactly when the batch is full, otherwise only on time-out / flush and never
+empty", Done for every object of the batch in BatchWrite order before anything else happens, are checked on every
+recorded run against the model itself, not against a hand-written grammar. -/
+
+/-- all model writer states that emit `e` next, reachable from `s` through at most `fuel` silent writer steps -/
+def wReach (e : Event) : Nat → St → List St
+  | 0, _ => []
+  | fuel + 1, s =>
+    let s0 : St :=
+      match e with
+      | .reset o => { s with queue := if s.wpc = .addReset then [] else [o] }
+      | .write o v => { s with ver := upd s.ver o v, queue := [] }
+      | _ => { s with queue := [] }
+    (stepWriter { s0 with tr := [], running := true, flushCh := true }).flatMap (fun s' =>
+      match s'.tr with
+      | [] => wReach e fuel s'
+      | e' :: _ => if e' = e then [s'] else [])
+
+/-- what distinguishes two candidate writer states -/
+def wKey (s : St) : WPc × Bool × Bool × List Nat × List Nat × Nat := (s.wpc, s.fl, s.again, s.batch, s.todo, s.wcur)
+
+def wDedup (l : List St) : List St :=
+  (l.foldl (fun (acc : List St) s => if acc.any (fun a => wKey a == wKey s) then acc else s :: acc) []).reverse
+
+/-- position of the first observed event the model's writer cannot produce, if any -/
+def wConform (b : Nat) (evs : List Event) : Option (Nat × Event) :=
+  let rec go (k : Nat) (cands : List St) : List Event → Option (Nat × Event)
+    | [] => none
+    | e :: rest =>
+      match wDedup (cands.flatMap (wReach e 12)) with
+      | [] => some (k, e)
+      | next => go (k + 1) next rest
+  go 0 [{ (initSt 1 b) with wpc := .loopRun, spawned := true, running := true, mon := {} }] evs
+
+def wconfLine (ws : List String) : String :=
+  let b := match kvArg "b" ws with | 0 => 10000 | n => n
+  let evs := ws.filterMap (fun w => if w.startsWith "b=" then none else parseEvent (w.splitOn "."))
+  match wConform b evs with
+  | none => "conforms"
+  | some (k, e) => s!"deviates at {k}: {e.render}"
+
 def showVerdict (final : Bool) : Option Why → String
   | none => if final then "accept" else "ok"
   | some w => "reject " ++ w.toString
@@ -413,6 +461,7 @@ def stepLine (m : Mon) (ws : List String) : Mon × String :=
   | "cfg" :: _ => ({}, "ok")
   | ["end"] => (m, showVerdict true m.finalVerdict)
   | "model" :: rest => (m, modelLine rest)
+  | "wconf" :: rest => (m, wconfLine rest)
   | _ =>
     match parseEvent ws with
     | some e => let m' := m.step e; (m', showVerdict false m'.verdict)
